@@ -15,6 +15,11 @@ import (
 const taint = `q<7>w&e'r"t`
 const twin = `qa7bwcedrft`
 
+// a context text that LOOKS escaped already: its ampersands are text like any other
+const entityTaint = `x&lt;y&#60;z&amp;w`
+
+var entityPieces = []string{"&lt;y", "&#60;z", "&amp;w"}
+
 type stringerT struct{ s string }
 
 func (s stringerT) String() string { return s.s }
@@ -301,6 +306,8 @@ type Case struct {
 	// Switched: the template is compiled while the package-wide default (SetAutoescape) is OFF; the default is
 	// switched back on before the execution, which therefore is an execution with autoescaping on
 	Switched bool `json:"switched,omitempty"`
+	// Entity: rendered with the marker that looks like escaped text instead
+	Entity bool `json:"entity,omitempty"`
 }
 
 func (c *Case) ID() string {
@@ -312,6 +319,12 @@ func (c *Case) ID() string {
 	var b strings.Builder
 	for _, k := range ks {
 		fmt.Fprintf(&b, "%s=%q ", k, c.Files[k])
+	}
+	if c.Switched {
+		b.WriteString("compiled-while-the-default-was-off ")
+	}
+	if c.Entity {
+		b.WriteString("entity-shaped-marker ")
 	}
 	return b.String()
 }
@@ -335,6 +348,22 @@ func (c *Case) Exec(t *eng.T) {
 			return out
 		}
 		return px.Exec(tpl, ctxFor(m))
+	}
+	if c.Entity {
+		out := render(entityTaint)
+		t.Outcome(out.Kind())
+		if out.Panic != "" || out.Failed() {
+			t.Skip()
+			return
+		}
+		low := strings.ToLower(out.S)
+		for _, p := range entityPieces {
+			if strings.Contains(low, p) {
+				t.Fail("leak-entity-shaped:"+c.Route, "%s: the context text %q reaches the output %q with its ampersand unescaped (%q)", c.ID(), entityTaint, out.S, p)
+				return
+			}
+		}
+		return
 	}
 	out := render(taint)
 	t.Outcome(out.Kind())
@@ -520,7 +549,7 @@ func run(r *eng.Runner) {
 			r.Do(&Case{Files: map[string]string{"/main": p.src}, Label: s.name + ">tag>" + p.sink, Route: routeKey(s.name, []string{"tag-argument"}, p.sink)})
 		}
 	}
-	r.Group("default-switched", "c02.case", "templates compiled while the package-wide default was off (SetAutoescape(false)) and executed after it was switched on again: every source printed directly, in a loop over a literal, by firstof, inside a statically included file, an extended base and an imported macro")
+	r.Group("default-switched", "c02.case", "templates compiled while the package-wide default was off (SetAutoescape(false)) and executed after it was switched on again: every source printed directly, in a loop over a literal, by firstof, inside a statically included file, an extended base and an imported macro; the same sinks with a context text that looks escaped already (x&lt;y&#60;z&amp;w): its ampersands are escaped like any other")
 	for _, s := range srcs {
 		if s.wrap != nil {
 			continue
@@ -538,6 +567,8 @@ func run(r *eng.Runner) {
 			{"imported-macro", map[string]string{"/main": "{% import \"lib\" m %}{{ m(" + e + ") }}", "/lib": "{% macro m(a) export %}{{ a }}{% endmacro %}"}},
 		} {
 			r.Do(&Case{Files: p.files, Label: s.name + ">switched>" + p.sink, Route: routeKey(s.name, []string{"default-switched"}, p.sink), Switched: true})
+			// the same sinks (compiled normally) with a context text that looks escaped already
+			r.Do(&Case{Files: p.files, Label: s.name + ">entity>" + p.sink, Route: routeKey(s.name, []string{"entity-shaped"}, p.sink), Entity: true})
 		}
 	}
 }
